@@ -28,8 +28,9 @@ import (
 // a request other than the member's own LeaveGroup never removes a member. When members
 // were removed and others remain, the group must be rebalancing in a higher generation.
 //
-// Never late (only while no failover happened in the history - the statement quantifies
-// over heartbeat/join timings, not over coordinator crashes): after tick T no member with
+// Never late (the rebalance-lagger half only while no failover happened in the history; the
+// session half also after a failover, once the replacement coordinator has loaded the group:
+// heartbeat times are persisted with every heartbeat): after tick T no member with
 // T - lastRefresh > S is left, i.e. removal at the first tick after the lapse (< S + I);
 // and no member that has not rejoined is left when T >= tb + R, where tb is the last time
 // any member joined during this rebalance (the implementation restarts the rebalance
@@ -110,7 +111,7 @@ func (coordC43) CheckTick(w *coordWorld, tk *coordTick) []xstate.Violation {
 			out = append(out, coordViol("no-rebalance-after-expiry", "tick at +%.1fs removed %d member(s) but the group is %s at generation %d (before: %d)", T.Sub(w.coordStart).Seconds(), removed, coordPhaseName(tk.Post.Phase), tk.Post.Gen, tk.Pre.Gen))
 		}
 	}
-	if l.Failovers > 0 || !tk.Pre.Exists || !tk.Pre.Loaded {
+	if !tk.Pre.Exists || !tk.Pre.Loaded {
 		return out
 	}
 	for _, id := range tk.Pre.IDs {
@@ -120,8 +121,14 @@ func (coordC43) CheckTick(w *coordWorld, tk *coordTick) []xstate.Violation {
 		}
 		S := m.session()
 		if age := T.Sub(m.LastRefresh); age > S {
-			out = append(out, coordViol("expired-member-not-removed", "tick at +%.1fs: %s is still a member %.1fs after its last join/successful heartbeat (session timeout %.0fs)", T.Sub(w.coordStart).Seconds(), w.name(id), age.Seconds(), S.Seconds()))
-		} else if l.InReb && !rejoined(id) && !T.Before(l.LastBump.Add(coordRebalTO)) {
+			key := "expired-member-not-removed"
+			if l.Failovers > 0 {
+				// session lapse after a failover: judged once the replacement coordinator has loaded the
+				// group (heartbeat times are persisted with every heartbeat, so it knows them)
+				key = "expired-member-not-removed-after-failover"
+			}
+			out = append(out, coordViol(key, "tick at +%.1fs: %s is still a member %.1fs after its last join/successful heartbeat (session timeout %.0fs)", T.Sub(w.coordStart).Seconds(), w.name(id), age.Seconds(), S.Seconds()))
+		} else if l.Failovers == 0 && l.InReb && !rejoined(id) && !T.Before(l.LastBump.Add(coordRebalTO)) {
 			out = append(out, coordViol("rebalance-lagger-not-dropped", "tick at +%.1fs: %s has not rejoined generation %d, %.1fs after the last join of this rebalance (rebalance timeout %.0fs), and is still a member", T.Sub(w.coordStart).Seconds(), w.name(id), tk.Pre.Gen, T.Sub(l.LastBump).Seconds(), coordRebalTO.Seconds()))
 		}
 	}
@@ -133,5 +140,5 @@ func TestVerifC43(t *testing.T) {
 		"BFS over all event histories (join/rejoin/sync/heartbeat/commit/leave/failover/stale-member events and advance(d), d in {rebalance-eps, rebalance, rebalance+eps=session-eps, session, session+eps}, eps = half a cleanup interval) up to the depth bound, states merged by canonical key, plus a timing run (irregular heartbeat spacing) and a session-change run (every join/rejoin asks for session 3 s or 5 s, advances up to 5.5 s) on a reduced request alphabet explored to their fixpoints, every transition executed on the real GroupCoordinator whose own cleanupLoop runs on virtual time; the group is observed after every tick: no member disappears unless its session lapsed or the rebalance timeout passed without it rejoining, removals start a rebalance, and (without failover) lapsed members and rebalance laggers are gone at the first tick after the lapse. distinct = distinct (store, event, reply, state change) observations; non-trivial = error code or observable change",
 		[]string{"session 3 s, rebalance 2 s, cleanup interval 1 s of virtual time for every member; in the session-change run every join/rejoin asks for a session of 3 s or 5 s and a member is judged by the session of its latest join (any JoinGroup the coordinator answered with a member id, also one answered REBALANCE_IN_PROGRESS)",
 			"a heartbeat answered REBALANCE_IN_PROGRESS does not count as heartbeating (the coordinator does not refresh the session on it; Kafka does)",
-			"the never-late half is judged only in histories without failover: a replacement coordinator loads a group on the first request that names it and does not expire members of groups no request has touched yet, and it restarts the rebalance timeout on load"})
+			"after a failover the never-late half is judged for session lapses only, and only once the replacement coordinator has loaded the group (it loads a group on the first request that names it and does not expire members of groups no request has touched yet); the rebalance-lagger never-late half is judged only in histories without failover (the rebalance timeout restarts on load)"})
 }
